@@ -281,6 +281,31 @@ def fixed_hostile_archives():
     h[265:297] = b"u" * 32
     h[297:329] = b"g" * 32
     out.append(("ustar-full-fields", "uname/gname-32", fix(h) + tail))
+    # several extension records in front of one member: what an earlier record stored (long name, long link target, pax path) meets a
+    # later pax header that does not carry that key (and the other way round)
+    H = tarmodel._header
+    longname = b"dir/" + b"L" * 120
+
+    def ext(kind, payload):
+        nm = {b"L": b"././@LongLink", b"K": b"././@LongLink"}.get(kind, b"./PaxHeaders/x")
+        return H(nm, 0o644, 0, 0, len(payload), 0, kind, magic=b"ustar  \0" if kind in (b"L", b"K") else b"ustar\0" b"00") + tarmodel._pad(payload)
+
+    recs = {"L": ext(b"L", longname + b"\0"), "K": ext(b"K", b"target/" + b"K" * 120 + b"\0"),
+            "x-path": ext(b"x", tarmodel._pax_record(b"path", b"pax/" + b"P" * 110)), "x-mtime": ext(b"x", tarmodel._pax_record(b"mtime", b"1234567.5")),
+            "x-link": ext(b"x", tarmodel._pax_record(b"linkpath", b"paxtarget/" + b"Q" * 110)), "x-size": ext(b"x", tarmodel._pax_record(b"size", b"5")),
+            "x-uid": ext(b"x", tarmodel._pax_record(b"uid", b"70000") + tarmodel._pax_record(b"gid", b"70001")),
+            "g": ext(b"g", tarmodel._pax_record(b"mtime", b"99"))}
+    members = {"file": H(b"short", 0o644, 0, 0, 5, 0, b"0") + tarmodel._pad(b"12345"), "symlink": H(b"slink", 0o777, 0, 0, 0, 0, b"2", b"tgt"),
+               "hardlink": H(b"hlink", 0o644, 0, 0, 0, 0, b"1", b"after")}
+    names = sorted(recs)
+    for a in names:
+        for b in names:
+            for mk in sorted(members):
+                if a == b and a != "x-mtime":
+                    continue
+                out.append(("ext-record-sequence", "%s, %s, then a %s member" % (a, b, mk), recs[a] + recs[b] + members[mk] + tail))
+    for a in names:
+        out.append(("ext-record-sequence", "%s, then the end-of-archive marker" % a, recs[a] + b"\0" * 1024))
     return out
 
 
